@@ -297,9 +297,13 @@ double64_be_read (const unsigned char *cptr)
 		return 0.0 ;
 
 	dvalue = upper + lower / ((double) 0x1000000) ;
-	dvalue += 0x10000000 ;
 
-	exponent = exponent - 0x3FF ;
+	if (exponent)
+	{	dvalue += 0x10000000 ;
+		exponent = exponent - 0x3FF ;
+		}
+	else
+		exponent = -0x3FE ;
 
 	dvalue = dvalue / ((double) 0x10000000) ;
 
@@ -330,9 +334,13 @@ double64_le_read (const unsigned char *cptr)
 		return 0.0 ;
 
 	dvalue = upper + lower / ((double) 0x1000000) ;
-	dvalue += 0x10000000 ;
 
-	exponent = exponent - 0x3FF ;
+	if (exponent)
+	{	dvalue += 0x10000000 ;
+		exponent = exponent - 0x3FF ;
+		}
+	else
+		exponent = -0x3FE ;
 
 	dvalue = dvalue / ((double) 0x10000000) ;
 
